@@ -47,7 +47,7 @@ i1 = s.index("### 10.1 ")
 i2 = s.index("### 10.2 ")
 end = s.index("\n## ", i2) if "\n## " in s[i2:] else len(s)
 head1 = "### 10.1 Catalogue (mutants/, %d patches) — status of the last `./check selftest-sensitivity` (seed %s)\n\n" % (len(idx), sens.get("seed"))
-head2 = ("### 10.2 Seeded changes from independent sub-agents (seeded/, %d changes in six waves) — %d valid, %d detected by the quick tier\n\n"
+head2 = ("### 10.2 Seeded changes from independent sub-agents (seeded/, %d changes in twelve waves) — %d valid, %d detected by the quick tier\n\n"
          "Each was confirmed in a fresh worktree of /repo (compiles, the fast existing tests pass, its own\n"
          "demonstration fails with it and passes without it; `meta.json` has the commands and results).\n"
          "\"Needed\" says what had to be added to the machinery before the quick tier caught it (— : caught as it was).\n\n") % (len(metas), nvalid, ndet)
